@@ -2,6 +2,7 @@ import DaskModel.DriverLib
 import DaskModel.Model.Blockwise
 import DaskModel.Model.Annot
 import DaskModel.Model.HLG
+import DaskModel.Model.Elemwise
 import DaskModel.Generated.FuseRules
 open Dask
 
@@ -212,9 +213,51 @@ def hHlgCull : Handler := handler fun a => match a with
     pure (.list ((Dask.HLG.cull ls ks).map fun l => SExp.ofNats (Dask.HLG.keysOf l)))
   | _ => none
 
+/-! C19: broadcast_shapes / common_blockdim / unify_chunks / elementwise plan -/
+open Dask.Elemwise in
+/-- `(bshapes (shape…)…)` ↦ `(ok (dims…))` | `(raised)`, and the NumPy rule: `(ok …)`/`(raised)` -/
+def hBShapes : Handler := handler fun a => match a with
+  | [shapes] => do
+    let shapes ← shapes.toNatss?
+    pure (.list [okOr ((broadcastShapes shapes).map SExp.ofNats), okOr ((npBroadcast shapes).map SExp.ofNats)])
+  | _ => none
+
+open Dask.Elemwise in
+/-- `(cbd ((chunks…)…))` : `common_blockdim` -/
+def hCbd : Handler := handler fun a => match a with
+  | [bds] => do
+    let bds ← bds.toNatss?
+    pure (okOr ((commonBlockdim bds).map SExp.ofNats))
+  | _ => none
+
+open Dask.Elemwise in
+def toUArg? : SExp → Option UArg
+  | .list [ind, chunks] => do pure { ind := ← ind.toNats?, chunks := ← chunks.toNatss? }
+  | _ => none
+
+open Dask.Elemwise in
+/-- `(unify (((ind…) ((chunks…)…))…))` ↦ `(ok ((sym (chunks…))…) (((chunks…)…)…))` : `unify_chunks` -/
+def hUnify : Handler := handler fun a => match a with
+  | [args] => do
+    let args ← (← args.toList?).mapM toUArg?
+    pure (okOr ((unifyChunks args).map fun r =>
+      .list [.list (r.1.map fun p => .list [SExp.ofNat p.1, SExp.ofNats p.2]), .list (r.2.map SExp.ofNatss)]))
+  | _ => none
+
+open Dask.Elemwise in
+/-- `(argpos (cOut…) (cArg…) i)` ↦ global position of the argument element read for output position `i` -/
+def hArgPos : Handler := handler fun a => match a with
+  | [co, ca, i] => do
+    let co ← co.toNats?
+    let ca ← ca.toNats?
+    let i ← i.toNat?
+    pure (SExp.ofOptNat (argPos co ca i))
+  | _ => none
+
 end HlgDrv
 
 def table : List (String × Handler) := [
+  ("bshapes", HlgDrv.hBShapes), ("cbd", HlgDrv.hCbd), ("unify", HlgDrv.hUnify), ("argpos", HlgDrv.hArgPos),
   ("bdims", HlgDrv.hBdims), ("makedims", HlgDrv.hMakeDims), ("coordmap", HlgDrv.hCoordMap),
   ("dummies", HlgDrv.hDummies), ("argcoords", HlgDrv.hArgCoords), ("argcoordsspec", HlgDrv.hArgCoordsSpec),
   ("lol", HlgDrv.hLol), ("culldeps", HlgDrv.hCullDeps), ("task", HlgDrv.hTask), ("blocks", HlgDrv.hBlocks),
